@@ -5,8 +5,8 @@
 From Coq Require Import String.
 From AV Require Import Lib.Base Lib.V Gen.Consts Gen.WsTables Ws.Mask Ws.MaskProofs Ws.MaskFast Ws.Frame Ws.FrameProofs
   Ws.Codec Ws.ParseProofs Ws.Stream Ws.StreamProofs Ws.MoreProofs Ws.Handshake Ws.HandshakeProofs
-  Ws.FrameSpec Ws.SpecProofs Ws.HdrProofs Ws.RoundProofs Ws.DeliverProofs Ws.RoundTrip Ws.OversizeProofs Ws.RoundTripSeq Ws.ReserveProofs
-  Ws.Sha1 Ws.Base64 Ws.HashKey Ws.HashKeyProofs Ws.TablesTie.
+  Ws.FrameSpec Ws.SpecProofs Ws.HdrProofs Ws.RoundProofs Ws.DeliverProofs Ws.RoundTrip Ws.OversizeProofs Ws.RoundTripSeq Ws.BatchProofs Ws.ReserveProofs
+  Ws.Sha1 Ws.Base64 Ws.HashKey Ws.HashKeyProofs Ws.TablesTie Ws.SeqProofs Gen.WsHandshake Ws.HandshakeTie.
 Open Scope N_scope.
 
 (* ---------------- masking ---------------- *)
@@ -54,8 +54,10 @@ Theorem C14_run_terminates : forall lossy (c : codec) (buf : bytes),
 Proof. intros. apply (run_all_ends lossy (S (length buf))). lia. Qed.
 
 (* frames are atomic: if the decoder delivers a frame from [whole] leaving [rest], then on every
-   shorter prefix of the frame's bytes it answers "need more" (and consumes nothing: DNone) *)
-Theorem C14_partial_frame_needs_more : forall lossy c whole fr c' rest n,
+   shorter prefix of the frame's bytes it answers "need more" (and consumes nothing: DNone).
+   This is the complete statement (every codec state, every proper prefix length n); it was called
+   C14_partial_frame_needs_more, "partial" referring to the frame, not to the proof. *)
+Theorem C14_incomplete_frame_needs_more : forall lossy c whole fr c' rest n,
   decode lossy c whole = Val (DFrame fr c' rest) -> (n + length rest < length whole)%nat ->
   decode lossy c (firstn n whole) = Val DNone.
 Proof.
@@ -151,6 +153,15 @@ Proof.
   repeat split; try lia; try (vm_compute; reflexivity).
 Qed.
 
+(* the known class exactly: what the code does with ANY over-long Close frame (masking right for the
+   role, within max_size, FIN set or not): payload dropped, Close(None) delivered, state untouched,
+   exactly the frame consumed. With C14_strict_illegal_frame_refused this is the only deviation. *)
+Theorem C14_close_overlong_exact : forall lossy c (h : fhdr) (wire rest : bytes),
+  hdr_ok h -> lenN wire = h_len h -> h_len h < 2 ^ 63 ->
+  is_some (h_key h) = c_server c -> close_overlong h = true -> h_len h <= c_max c ->
+  decode lossy c (hdr_bytes h ++ wire ++ rest) = Val (DFrame (FClose None) c rest).
+Proof. intros. rewrite decode_dd, close_overlong_delivered by assumption. reflexivity. Qed.
+
 (* wrong masking and reserved opcodes are refused from the first two bytes on, nothing consumed *)
 Theorem C14_wrong_mask_refused : forall lossy c (h : fhdr) (tail : bytes),
   hdr_ok h -> is_some (h_key h) <> c_server c ->
@@ -186,6 +197,68 @@ Example C14_strict_example :
   decode (fun d => d) (set_cont c true) (hdr_bytes (mkHdr true 0 1 (Some key) L7 1) ++ [9]) =
     Val (DErr ContinuationStarted (set_cont c true) []).
 Proof. vm_compute. repeat split; reflexivity. Qed.
+
+(* ---------------- fragmentation state machine over whole sequences ---------------- *)
+
+(* [ref_recv] is the reference receiver written from RFC 6455 section 5.4: a one-bit automaton
+   ("a fragmented message is open") that walks a list of frames, delivers while [frame_legal] holds
+   in the current state, moves the state with [open_after] and stops at the first illegal frame.
+   For EVERY sequence of complete RFC-layout frames (all header fields free, control frames
+   interleaved anywhere), every codec state / role / max_size and EVERY split of the bytes across
+   reads, Codec::decode delivers exactly the reference's frames, then asks for more in the
+   reference's state with nothing held, or stops with a protocol error at the first illegal frame
+   (outside the known class: no over-long Close in the sequence). *)
+Theorem C14_decode_follows_reference_automaton : forall lossy (fs : list (fhdr * bytes)) (c : codec)
+  (segs : list bytes),
+  Forall wframe_ok fs -> Forall (fun f => close_overlong (fst f) = false) fs ->
+  concat segs = concat (map wframe_bytes fs) ->
+  let '(out, o, bad) := ref_recv lossy (c_server c) (c_cont c) (c_max c) fs in
+  match bad with
+  | None => feed lossy c [] segs = (out, EMore (set_cont c o) [])
+  | Some _ => exists e, feed lossy c [] segs = (out, EErr e)
+  end.
+Proof. exact feed_follows_reference. Qed.
+
+(* control frames may sit anywhere inside a fragmented message: they neither move the state nor
+   does their legality depend on it *)
+Theorem C14_control_frames_keep_state : forall (h : fhdr) (server o1 o2 : bool) (max_size : N),
+  is_control (h_op h) = true -> opcode_known (h_op h) = true ->
+  open_after h o1 = o1 /\ frame_legal server o1 max_size h = frame_legal server o2 max_size h.
+Proof.
+  intros h server o1 o2 max_size H1 H2. split; [apply control_keeps_state; assumption|].
+  apply control_legal_any_state. exact H1.
+Qed.
+
+(* the writer side, as the code is: for every message sequence Encoder::encode writes exactly the
+   messages the writer automaton [ref_send] lets through (First* only when no fragmented message
+   is open, Continue/Last only when one is; everything else always) and ends in its state *)
+Theorem C14_encode_follows_reference_automaton : forall (ms : list (message * bytes)) (c : codec),
+  let '(c', _, outs) := encode_all c ms in
+  map is_ok outs = fst (ref_send (c_wcont c) (map fst ms)) /\
+  c' = set_wcont c (snd (ref_send (c_wcont c) (map fst ms))).
+Proof. exact encode_follows_reference. Qed.
+
+(* client reading: FirstBinary, Ping, Continue, Pong, Last, Text are delivered with the state going
+   open .. open, closed; then a Continue without start is the first illegal frame *)
+Example C14_automaton_example :
+  let c := client_mode codec_new in
+  let f fin op w := (mkHdr fin 0 op None L7 (lenN w), w) in
+  let fs := [f false 2 [1]; f true 9 []; f false 0 [2]; f true 10 [7]; f true 0 [3]; f true 1 [104];
+             f true 0 [9]; f true 1 [105]] in
+  Forall wframe_ok fs /\ Forall (fun x => close_overlong (fst x) = false) fs /\
+  ref_recv (fun d => d) false false 65536 fs =
+    ([FContinuation (FirstBinary [1]); FPing []; FContinuation (Continue [2]); FPong [7];
+      FContinuation (Last [3]); FText [104]], false, Some (mkHdr true 0 0 None L7 1)) /\
+  run_all (fun d => d) c (concat (map wframe_bytes fs)) =
+    (fst (fst (ref_recv (fun d => d) false false 65536 fs)), EErr ContinuationNotStarted) /\
+  ref_send false [MsgContinuation (FirstText []); MsgPing []; MsgContinuation (FirstText []);
+                  MsgText []; MsgContinuation (Last []); MsgContinuation (Last [])] =
+    ([true; true; false; true; true; false], false).
+Proof.
+  cbv zeta. split; [|split; [|vm_compute; repeat split; reflexivity]].
+  - repeat constructor; cbn; try lia; vm_compute; reflexivity.
+  - repeat constructor.
+Qed.
 
 (* ---------------- round trip ---------------- *)
 
@@ -238,6 +311,70 @@ Example C14_conversation_example :
 Proof.
   cbv zeta. split; [|vm_compute; split; reflexivity].
   cbn [all_sendable encode fst c_wcont codec_new set_wcont]. unfold sendable.
+  cbn [message_payload]. change (2 ^ 63) with 9223372036854775808.
+  repeat split; try reflexivity; try (vm_compute; discriminate); try lia.
+Qed.
+
+(* ---------------- several messages queued in one write buffer ---------------- *)
+
+(* Parser::write_message on a buffer that already holds [dst] (frames queued and not yet flushed):
+   [dst] is left exactly as it was and is followed by the frame the message is written as into an
+   empty buffer. The in-place masking step (`pos = dst.len() - payload_len`) therefore touches the
+   payload bytes of the NEW frame only. Every payload, opcode, key; both roles. *)
+Theorem C14_write_message_appends : forall (dst payload : bytes) (op : opcode) (fin mask : bool) (key : bytes),
+  write_message dst payload op fin mask key = dst ++ write_message [] payload op fin mask key.
+Proof. exact write_message_app. Qed.
+
+(* the in-place step itself: XOR from `len - payload_len` on changes the appended payload only *)
+Theorem C14_mask_in_place_touches_payload_only : forall (held payload key : bytes),
+  mask_from (held ++ payload) (lenN (held ++ payload) - lenN payload) key = held ++ apply_mask payload key.
+Proof. exact mask_from_tail. Qed.
+
+(* Encoder::encode only appends: what the buffer held stays, the new bytes are those of the same
+   message encoded into an empty buffer, the writer state is the same *)
+Theorem C14_encode_only_appends : forall (c : codec) (m : message) (dst key : bytes) c' out,
+  encode c m dst key = (c', Ok out) -> exists w, out = dst ++ w /\ encode c m [] key = (c', Ok w).
+Proof. exact encode_only_appends. Qed.
+
+(* A SEQUENCE of messages (any number, any kinds and sizes, each with its own mask key) encoded
+   back-to-back into ONE buffer that already holds [dst0]: the buffer afterwards is dst0 followed
+   by a stream that the peer decodes, however it is split across reads, as exactly the accepted
+   messages in order, nothing left over, flags in step. Nothing of dst0 is altered. *)
+Theorem C14_roundtrip_batch : forall lossy (ms : list (message * bytes)) (enc dec : codec)
+  (dst0 : bytes) (segs : list bytes),
+  c_server dec = negb (c_server enc) -> c_cont dec = c_wcont enc ->
+  all_sendable enc (c_max dec) ms ->
+  let '(enc', buf, _) := encode_into enc ms dst0 in
+  firstn (length dst0) buf = dst0 /\
+  (concat segs = skipn (length dst0) buf ->
+   feed lossy dec [] segs = (expected_frames lossy enc ms, EMore (set_cont dec (c_wcont enc')) [])).
+Proof.
+  intros lossy ms enc dec dst0 segs H1 H2 H3.
+  destruct (roundtrip_batch lossy ms enc dec dst0 H1 H2 H3) as (enc' & stream & Hb & Hr).
+  destruct (encode_into enc ms dst0) as ((e, buf), outs). cbn [fst] in Hb.
+  injection Hb; intros; subst. rewrite firstn_exact, skipn_exact by reflexivity.
+  split; [reflexivity|]. intro Hc. rewrite segmentation_independent, Hc. exact Hr.
+Qed.
+
+(* every intermediate buffer of a batch extends the buffer the batch started with *)
+Theorem C14_batch_buffers_extend : forall (ms : list (message * bytes)) (c : codec) (dst : bytes),
+  Forall (fun o => match o with Ok b => exists w, b = dst ++ w | Err _ => True end)
+         (snd (encode_into c ms dst)).
+Proof. exact encode_into_outs_extend. Qed.
+
+(* client role (masking), two held bytes in front, a Text and a Ping queued behind each other with
+   different keys: the held bytes and the first frame are intact after the second encode *)
+Example C14_batch_example :
+  let enc := client_mode codec_new in let dec := codec_new in
+  let ms := [(MsgText [104; 105], [1; 2; 3; 4]); (MsgPing [7], [250; 251; 252; 253])] in
+  all_sendable enc (c_max dec) ms /\
+  snd (fst (encode_into enc ms [9; 9])) =
+    [9; 9] ++ [129; 130; 1; 2; 3; 4; 105; 107] ++ [137; 129; 250; 251; 252; 253; 253] /\
+  run_all (fun d => d) dec (skipn 2 (snd (fst (encode_into enc ms [9; 9])))) =
+    ([FText [104; 105]; FPing [7]], EMore dec []).
+Proof.
+  cbv zeta. split; [|vm_compute; split; reflexivity].
+  cbn [all_sendable encode fst c_wcont codec_new client_mode]. unfold sendable.
   cbn [message_payload]. change (2 ^ 63) with 9223372036854775808.
   repeat split; try reflexivity; try (vm_compute; discriminate); try lia.
 Qed.
@@ -322,6 +459,66 @@ Proof.
   - eexists. vm_compute. repeat split; reflexivity.
   - eexists. split; [vm_compute; reflexivity|]. left. reflexivity.
   - eexists. vm_compute. reflexivity.
+Qed.
+
+(* the tests of verify_handshake IN SOURCE ORDER with the error each returns are read from
+   ws/mod.rs (and RequestHead::upgrade from requests/head.rs) on every run: Gen/WsHandshake.v.
+   [verify_tbl] runs such a table (first failing test returns its error); the model is exactly the
+   source's table *)
+Theorem C14_tie_handshake_tests : forall method h,
+  verify_tbl WS_HANDSHAKE_TESTS method h =
+  match verify_handshake method h with None => VAccept | Some e => VReject e end.
+Proof. exact verify_handshake_is_source_table. Qed.
+
+(* the first failing test decides the error: verify_handshake returns e exactly when the source's
+   table splits into tests that all pass, then a test that fails and carries e *)
+Theorem C14_handshake_first_failing_test_decides : forall method h e,
+  verify_handshake method h = Some e <->
+  exists pre t post, WS_HANDSHAKE_TESTS = pre ++ t :: post /\ Forall (row_passes method h) pre /\
+                     row_fails_with method h t e.
+Proof. exact handshake_first_failing_test_decides. Qed.
+
+(* ... and it accepts exactly when every test of the source's table passes; for any table at all
+   the same two facts hold of [verify_tbl] (induction over the table) *)
+Theorem C14_handshake_accepts_iff_all_source_tests_pass : forall method h,
+  verify_handshake method h = None <-> Forall (row_passes method h) WS_HANDSHAKE_TESTS.
+Proof. exact handshake_accepts_iff_all_tests_pass. Qed.
+
+Theorem C14_any_table_first_failing_test_decides : forall tests method h e,
+  verify_tbl tests method h = VReject e <->
+  exists pre t post, tests = pre ++ t :: post /\ Forall (row_passes method h) pre /\
+                     row_fails_with method h t e.
+Proof. exact verify_tbl_reject. Qed.
+
+(* the RFC's reading of the headers (Upgrade / Connection are comma-separated token lists compared
+   case-insensitively, version 13): every request well-formed in that sense is accepted. The code
+   tests for a substring and also takes versions 8 and 7, so the converse fails (example below;
+   recorded as an observation, the property's "well-formed" is [wellformed]). *)
+Theorem C14_handshake_rfc_wellformed_accepted : forall method h,
+  rfc_wellformed method h -> verify_handshake method h = None.
+Proof. exact rfc_wellformed_accepted. Qed.
+
+Example C14_handshake_tests_example :
+  let h := [(s_upgrade, [104; 50; 99; 44; 32; 87; 101; 98; 83; 111; 99; 107; 101; 116]);   (* "h2c, WebSocket" *)
+            (s_connection, [107; 101; 101; 112; 45; 97; 108; 105; 118; 101; 44; 85; 112; 103; 114; 97; 100; 101]);
+            (s_version, [49; 51]); (s_key, [120; 61])] in
+  rfc_wellformed s_get h /\ Forall (row_passes s_get h) WS_HANDSHAKE_TESTS /\
+  (* without the version header: tests 1-3 pass, test 4 (present sec-websocket-version) decides *)
+  verify_tbl WS_HANDSHAKE_TESTS s_get (firstn 2 h ++ skipn 3 h) = VReject NoVersionHeader /\
+  (* accepted by the code, not well-formed in the RFC's sense *)
+  verify_handshake s_get lenient_request = None /\ ~ rfc_wellformed s_get lenient_request.
+Proof.
+  cbv zeta. split; [|split; [|split; [vm_compute; reflexivity|exact rfc_converse_witness]]].
+  - split; [reflexivity|]. split; [|split; [|split; [reflexivity|eexists; reflexivity]]].
+    + eexists. split; [reflexivity|]. split; [vm_compute; reflexivity|].
+      exists [104; 50; 99; 44; 32], [87; 101; 98; 83; 111; 99; 107; 101; 116], [].
+      split; [reflexivity|]. split; [vm_compute; reflexivity|]. split; [|left; reflexivity].
+      right. exists [104; 50; 99; 44], 32. split; reflexivity.
+    + eexists. split; [reflexivity|]. split; [vm_compute; reflexivity|].
+      exists [107; 101; 101; 112; 45; 97; 108; 105; 118; 101; 44], [85; 112; 103; 114; 97; 100; 101], [].
+      split; [reflexivity|]. split; [vm_compute; reflexivity|]. split; [|left; reflexivity].
+      right. exists [107; 101; 101; 112; 45; 97; 108; 105; 118; 101], 44. split; reflexivity.
+  - repeat constructor; vm_compute; try reflexivity; discriminate.
 Qed.
 
 (* ---------------- accept key: hash_key = base64(sha1(key ++ GUID)) ---------------- *)
